@@ -183,6 +183,13 @@ type StressCase struct {
 	Keys  int    `json:"keys"`
 	Procs int    `json:"procs"`
 	Progs [][]Op `json:"progs"`
+	// Epi selects the sequential epilogue (see stressEpilogue)
+	Epi int `json:"epi,omitempty"`
+	// Yield: the clock function gives way to other goroutines before it answers.
+	// Every implementation reads the clock inside the section it protects, so the
+	// calls of the other goroutines arrive while that section is open (it moves
+	// the schedule, it decides nothing)
+	Yield bool `json:"yield,omitempty"`
 }
 
 func GenStress(t *rapid.T) StressCase {
@@ -194,10 +201,17 @@ func GenStress(t *rapid.T) StressCase {
 	}
 	// hot: few keys, longer programs made mostly of Remove / Set / consuming Get,
 	// so that calls which unlink an entry and calls which re-create it overlap often
-	hot := rapid.IntRange(0, 3).Draw(t, "hot") == 3
+	// clear-hot: few keys; one goroutine alternates Set and Clear (a Clear every
+	// 4th to 7th operation, 15..25 %), the others run longer loops of plain Gets
+	// with a few Sets, so that calls which read or touch an entry overlap with
+	// the call that drops all of them - also with the last such call of the case,
+	// after which nothing tidies the recency list up before the epilogue looks
+	variant := rapid.IntRange(0, 7).Draw(t, "hot")
+	hot, clearHot := variant == 3 || variant == 7, variant == 2 || variant == 6
 	g := rapid.IntRange(2, 4).Draw(t, "goroutines")
 	lo, hi := 3, 16
 	wSet, wGet, wRemove, wClear := 40, 80, 88, 91
+	ragFrom := 3 // of 6 Gets: two plain, one update-ttl, three remove-after-get
 	if hot {
 		c.Size = rapid.IntRange(1, 3).Draw(t, "hot_size")
 		c.Keys = rapid.IntRange(1, 2).Draw(t, "hot_keys")
@@ -205,7 +219,26 @@ func GenStress(t *rapid.T) StressCase {
 		lo, hi = 10, 24
 		wSet, wGet, wRemove, wClear = 38, 55, 95, 97
 	}
+	if clearHot {
+		c.Size = rapid.IntRange(1, 3).Draw(t, "hot_size")
+		c.Keys = rapid.IntRange(1, 2).Draw(t, "hot_keys")
+		c.TTL = rapid.SampledFrom([]int64{0, 0, 10}).Draw(t, "hot_ttl")
+		g = rapid.IntRange(3, 5).Draw(t, "hot_goroutines")
+		ragFrom = 6 // five plain, one update-ttl
+	}
+	c.Epi = rapid.SampledFrom([]int{0, 1, 1, 2}).Draw(t, "epi")
+	c.Yield = rapid.IntRange(0, 3).Draw(t, "yield") >= 2 || clearHot && rapid.Bool().Draw(t, "hot_yield")
 	for i := 0; i < g; i++ {
+		if clearHot && i == 0 { // the goroutine that sets and clears
+			lo, hi = 8, 28
+			wClear = 100 - rapid.IntRange(0, 1).Draw(t, "hot_adv")
+			wRemove = wClear - rapid.IntRange(15, 25).Draw(t, "hot_clear")
+			wGet = wRemove - rapid.IntRange(0, 4).Draw(t, "hot_remove")
+			wSet = wGet * rapid.IntRange(60, 90).Draw(t, "hot_set") / 100
+		} else if clearHot { // the readers
+			lo, hi = 30, 80
+			wSet, wGet, wRemove, wClear = 12, 98, 99, 100
+		}
 		n := rapid.IntRange(lo, hi).Draw(t, "n")
 		var prog []Op
 		for j := 0; j < n; j++ {
@@ -221,10 +254,10 @@ func GenStress(t *rapid.T) StressCase {
 				o.Keep = rapid.IntRange(0, 4).Draw(t, "keep") == 4
 			case w < wGet:
 				o = Op{Kind: "get", Key: rapid.IntRange(0, c.Keys-1).Draw(t, "key")}
-				switch rapid.IntRange(0, 5).Draw(t, "gopt") {
-				case 3, 4, 5:
+				switch gopt := rapid.IntRange(0, 5).Draw(t, "gopt"); {
+				case gopt >= ragFrom:
 					o.RAG = true
-				case 2:
+				case gopt == 2:
 					o.Upd, o.TTL = true, rapid.SampledFrom([]int64{0, 2}).Draw(t, "uttl")
 				}
 			case w < wRemove:
@@ -245,16 +278,26 @@ func stressValue(g, i int) string { return fmt.Sprintf("g%d.%d", g, i) }
 
 func ExecStress(c StressCase) *vkit.Result {
 	res := &vkit.Result{}
-	if c.Size < 0 || c.Size > 64 || c.Keys < 1 || c.Keys > maxKeys || c.Procs < 1 || c.Procs > 64 || len(c.Progs) > 16 {
+	if c.Size < 0 || c.Size > 64 || c.Keys < 1 || c.Keys > maxKeys || c.Procs < 1 || c.Procs > 64 || len(c.Progs) > 16 || c.Epi < 0 || c.Epi > 2 {
 		res.Skip("malformed-case")
 		return res
 	}
 	var clk int64 = t0
-	restore := cache.VerifSetNow(func() int64 { return atomic.LoadInt64(&clk) })
+	var yield int32
+	restore := cache.VerifSetNow(func() int64 {
+		if atomic.LoadInt32(&yield) != 0 {
+			runtime.Gosched()
+		}
+		return atomic.LoadInt64(&clk)
+	})
 	defer restore()
 	defer runtime.GOMAXPROCS(runtime.GOMAXPROCS(c.Procs))
 	ctx := context.Background()
 	tc := cache.NewTTLMemCache(c.Size, c.TTL)
+	if c.Yield {
+		atomic.StoreInt32(&yield, 1)
+		res.Class("clock-yields")
+	}
 
 	// which key each value was stored under
 	owner := map[string]int{}
@@ -271,6 +314,9 @@ func ExecStress(c StressCase) *vkit.Result {
 		err error
 	}
 	recs := make([][]rec, len(c.Progs))
+	// a call that panics is reported as such (with the programs) instead of
+	// taking the process down
+	panics := make([]string, len(c.Progs))
 	start := make(chan struct{})
 	var wg sync.WaitGroup
 	for g := range c.Progs {
@@ -278,8 +324,17 @@ func ExecStress(c StressCase) *vkit.Result {
 		wg.Add(1)
 		go func(g int) {
 			defer wg.Done()
+			at := -1
+			defer func() {
+				if p := recover(); p != nil && at >= 0 {
+					panics[g] = fmt.Sprintf("g%d [%d] %s panicked: %v", g, at, c.Progs[g][at], p)
+				} else if p != nil {
+					panics[g] = fmt.Sprintf("g%d panicked: %v", g, p)
+				}
+			}()
 			<-start
 			for i, o := range c.Progs[g] {
+				at = i
 				r := &recs[g][i]
 				if (o.Kind == "set" || o.Kind == "get" || o.Kind == "remove") && (o.Key < 0 || o.Key >= c.Keys) {
 					continue
@@ -306,6 +361,7 @@ func ExecStress(c StressCase) *vkit.Result {
 	}
 	close(start)
 	wg.Wait()
+	atomic.StoreInt32(&yield, 0)
 
 	consumed := map[string]int{}
 	hits, consumes := 0, 0
@@ -326,6 +382,11 @@ func ExecStress(c StressCase) *vkit.Result {
 			}
 		}
 		return sb.String()
+	}
+	for _, p := range panics {
+		if p != "" {
+			return res.Failf("race/stress/panic", "%s - no call may fail otherwise than with AlreadyExists / NotFound%s", p, show())
+		}
 	}
 	for g, prog := range c.Progs {
 		for i, o := range prog {
@@ -394,22 +455,31 @@ func ExecStress(c StressCase) *vkit.Result {
 		m := newModel(c.Size, c.TTL, universe, len(post)+universe, start, res)
 		r := &memRun{ctx: ctx, tc: tc, m: m, res: res, keys: universe,
 			now: func() int64 { return atomic.LoadInt64(&clk) }, advance: func(dt int64) { atomic.AddInt64(&clk, dt) }, vr: newValuer()}
-		for i, o := range post {
-			r.step(i, o)
-			if res.Fail != nil {
-				break
+		func() {
+			at := 0
+			defer func() {
+				if p := recover(); p != nil && res.Fail == nil {
+					m.failf("panic", "sequential call [%d] panicked: %v", at, p)
+				}
+			}()
+			for i, o := range post {
+				at = i
+				r.step(i, o)
+				if res.Fail != nil {
+					return
+				}
 			}
-		}
-		if res.Fail == nil {
+			at = len(post)
 			all := make([]int, universe)
 			for k := range all {
 				all[k] = k
 			}
 			r.probe(len(post), all)
-		}
+		}()
 		if res.Fail == nil {
 			m.boundCheck()
 		}
+		res.Class(fmt.Sprintf("epilogue=%d", c.Epi))
 		if res.Fail != nil {
 			res.Fail.Site = "race/stress/epilogue:" + res.Fail.Site
 			res.Fail.Msg += "\nconcurrent phase before it:" + show()
@@ -441,21 +511,36 @@ func ExecStress(c StressCase) *vkit.Result {
 // knows its state), set again, fresh keys fill the cache exactly up to its size,
 // every key is read, then one more fresh key overflows it and everything is read
 // again. All Sets carry ttl 0 (no expiry), the clock stands still.
+//
+// Epi 1: the stressed keys are removed and NOT set again - only fresh keys fill
+// the cache and overflow it (an entry of a stressed key that the concurrent
+// phase left in the recency list without an index entry then takes the place of
+// the key that had to leave: size+1 keys are retrievable). Epi 2: as Epi 0, but
+// the stressed keys are read once more before the overflow, so that they are the
+// most recently touched keys when an entry has to leave (they must stay).
 func stressEpilogue(c StressCase) []Op {
 	var ops []Op
 	for k := 0; k < c.Keys; k++ {
 		ops = append(ops, Op{Kind: "remove", Key: k})
 	}
-	for k := 0; k < c.Keys; k++ {
-		ops = append(ops, Op{Kind: "set", Key: k, HasTTL: true, TTL: 0})
+	fresh, filled := c.Keys, 0
+	if c.Epi != 1 {
+		for k := 0; k < c.Keys; k++ {
+			ops = append(ops, Op{Kind: "set", Key: k, HasTTL: true, TTL: 0})
+		}
+		filled = c.Keys
 	}
-	fresh := c.Keys
-	for n := c.Keys; n < c.Size; n++ {
+	for n := filled; n < c.Size; n++ {
 		ops = append(ops, Op{Kind: "set", Key: fresh, HasTTL: true, TTL: 0})
 		fresh++
 	}
 	for k := 0; k < fresh; k++ {
 		ops = append(ops, Op{Kind: "get", Key: k})
+	}
+	if c.Epi == 2 {
+		for k := 0; k < c.Keys; k++ {
+			ops = append(ops, Op{Kind: "get", Key: k})
+		}
 	}
 	ops = append(ops, Op{Kind: "set", Key: fresh, HasTTL: true, TTL: 0})
 	for k := 0; k <= fresh; k++ {
@@ -466,7 +551,7 @@ func stressEpilogue(c StressCase) []Op {
 
 var PartStress = &vkit.Part[StressCase]{
 	Property: Property, Name: "race-stress",
-	Rule:  "rapid: in-memory cache of size 0..3, default ttl in {0,2,10}, 1..3 keys, 2..4 free-running goroutines x 3..16 ops (Set with every option 40%, Get 40% half of them remove-after-get, Remove, Clear, clock advance 0..2 through an atomic); a quarter of the cases hot: size 1..3, 1..2 keys, 3..4 goroutines x 10..24 ops with Remove 40%, Set 38%, Get 17%, GOMAXPROCS in {2,4,8}, released by one barrier, run in a -race binary. Oracle (valid under every interleaving): race detector; only allowed errors; every hit returns a value some Set stored under that very key; a stored value is consumed by at most one successful remove-after-get; no hit at size 0; at quiescence at most size keys are retrievable and none after Clear; between the two, a sequential epilogue on the same cache (Remove and Set every stressed key, fill up to size with fresh keys, read all, overflow by one, read all) is judged by the three-valued model of part mem (sites race/stress/epilogue:...). Non-trivial: >= 2 goroutines and at least one hit",
+	Rule:  "rapid: in-memory cache of size 0..3, default ttl in {0,2,10}, 1..3 keys, 2..4 free-running goroutines x 3..16 ops (Set with every option 40%, Get 40% half of them remove-after-get, Remove, Clear, clock advance 0..2 through an atomic); a quarter of the cases hot: size 1..3, 1..2 keys, 3..4 goroutines x 10..24 ops with Remove 40%, Set 38%, Get 17%; another quarter clear-hot: size 1..3, 1..2 keys, one goroutine x 8..28 ops of Set and Clear (Clear 15..25%) and 2..4 goroutines x 30..80 ops of plain Gets (86%) with a few Sets; in more than half of the cases the clock function yields the processor before it answers (every implementation reads the clock inside the section it protects); GOMAXPROCS in {2,4,8}, released by one barrier, run in a -race binary. Oracle (valid under every interleaving): race detector; only allowed errors and no panic (site race/stress/panic); every hit returns a value some Set stored under that very key; a stored value is consumed by at most one successful remove-after-get; no hit at size 0; at quiescence at most size keys are retrievable and none after Clear; between the two, a sequential epilogue on the same cache (one of three, drawn: Remove and Set every stressed key, fill up to size with fresh keys, read all, overflow by one, read all / the same with the stressed keys only removed, so that fresh keys alone fill and overflow the cache - a leftover entry of the concurrent phase then shows as size+1 retrievable keys / the first one with the stressed keys read once more before the overflow, so that they must survive it) is judged by the three-valued model of part mem (sites race/stress/epilogue:...). Non-trivial: >= 2 goroutines and at least one hit",
 	Quick: 1500, Thorough: 12000,
 	Gen: GenStress, Exec: ExecStress,
 }
